@@ -8,7 +8,7 @@
       - the children of row t are leaves or clusters created by earlier rows (ids < n + t);
       - the size column of a row is the sum of the sizes of its two children (1 for a leaf, the size column of
         the row that created it for an internal id). *)
-From SKN Require Import Base.Util Model.Dendrogram Model.Cuts Proofs.CutsProofs.
+From SKN Require Import Base.Util Model.Dendrogram Model.Cuts Proofs.DendroBase.
 From Coq Require Import Permutation Lia.
 
 Definition csize (n : nat) (D : dendrogram) (c : nat) : nat :=
